@@ -14,6 +14,12 @@ for f in sorted(os.listdir(os.path.join(V, "props"))):
         runs = ", ".join("%s (harness cmd/%s, model %s)" % (r["name"], r["harness"], r["model_ml"]) for r in getattr(cfg, "RUNS", []))
         doc = "docs/%s.md" % cfg.ID if os.path.exists(os.path.join(V, "docs", cfg.ID + ".md")) else "section 6"
         print("| %s | %s | %d | %s | %s |" % (cfg.ID, cfg.LEVEL, n, runs, doc))
+print("\n#### What each claim covers (LEVEL_TEXT and LEVEL_NOTE of props/Cxx.py, verbatim; the same texts are written into every evidence file)\n")
+for f in sorted(os.listdir(os.path.join(V, "props"))):
+    if re.fullmatch(r"C\d+\.py", f):
+        cfg = importlib.import_module(f[:-3])
+        print("* **%s** (%s). %s\n  *Note:* %s" % (cfg.ID, cfg.LEVEL, " ".join(getattr(cfg, "LEVEL_TEXT", "").split()).replace("|", "/"),
+                                                  " ".join(getattr(cfg, "LEVEL_NOTE", "").split()).replace("|", "/")))
 print("\n### 11.2 Findings (known_findings.jsonl + known_findings.d/)\n")
 print("| property | status | /repo commit | what |")
 print("|---|---|---|---|")
